@@ -566,6 +566,88 @@ std::vector<Op> simplify_proto(const Op & op)
 SuiteRegistrar reg_proto({"proto", "random public-API call sequences against an executable protocol state machine (C09)", gen_proto, run_proto, simplify_proto,
                           nullptr});
 
+// ---- first use under an I/O fault (runs in a freshly forked process: --fresh 1) ---------------------------
+//   op res_fault which kind arg   (which: 0 dbd_isotopes.lis 1 background_isotopes.lis 2 dbd_modes.lis; kind 1: cannot be opened, 2: EIO from read #arg)
+//   op fu_cfg cat level mode ; nuclide        (a configuration the catalogue knows to be accepted)
+// The catalogue lists are loaded lazily, once per process. A failed first load must not poison the process:
+// once the fault is gone the same object, and a brand-new one, initialise and yield the same events.
+std::string read_text(const std::string & p) { std::ifstream f(p.c_str(), std::ios::binary); std::ostringstream o; o << f.rdbuf(); return o.str(); }
+
+Outcome run_firstuse(const Plan & plan, const RunCtx & ctx)
+{
+  Outcome out; Trace tr;
+  const bool check = ctx.prop == "C09";
+  if (!fs::active()) { out.trace = 1; return out; }
+  fs::reset();
+  static const char * L[3] = {"dbd_isotopes.lis", "background_isotopes.lis", "dbd_modes.lis"};
+  std::string res = fs::root() + "/res";
+  for (int i = 0; i < 3; i++) fs::put(res + "/description/" + L[i], read_text(repo_dir() + "/resources/description/" + L[i]));
+  setenv("BXDECAY0_RESOURCE_DIR", res.c_str(), 1); // before the library resolves it for the first (and only) time
+  Model m; i64 which = 2, kind = 0, arg = 0;
+  for (const Op & op : plan.ops) {
+    if (op.k == "res_fault") { which = op.arg(0) % 3; kind = op.arg(1); arg = op.arg(2); }
+    if (op.k == "fu_cfg") { m.cat = (int)op.arg(0); m.level = m.cat == 1 ? (int)op.arg(1) : -1; m.mode = m.cat == 1 ? (int)op.arg(2) : 0; m.iso = op.str(0); }
+  }
+  if (m.iso.empty()) { out.trace = 2; return out; }
+  auto violation = [&](const std::string & cls, const std::string & what) { if (check) out.fail("C09", cls, cls + " first-use " + L[which] + " fault" + std::to_string(kind), what + " [cfg " + m.key() + "]"); };
+  bxdecay0::decay0_generator g;
+  std::string err; bool af = false;
+  // first use, under the fault
+  fs::begin_op(); fs::faults() = fs::Faults();
+  if (kind == 1) fs::faults().open_errno[res + "/description/" + L[which]] = 5 /*EIO*/;
+  else if (kind == 2) fs::faults().eio_at_read = std::max<i64>(0, arg);
+  i64 f0 = fs::stats().open_failed + fs::stats().read_eio;
+  SimRandom r1(hmix(hstr("fu-init"), 1)); r1.begin_op(3000000);
+  bool ok1 = sut_call(-1, [&] { apply_model(g, m); g.initialize(r1); }, err, af);
+  bool fired = (fs::stats().open_failed + fs::stats().read_eio) > f0;
+  if (fired) out.ctr["fault_io_at_first_use_fired"]++;
+  fs::faults() = fs::Faults(); fs::begin_op();
+  tr.add(ok1); tr.add(fired);
+  if (!ok1 && g.is_initialized()) violation("initialized-after-failed-initialize", "initialize() threw under an I/O fault on " + std::string(L[which]) + " but is_initialized() is true");
+  // the fault is gone: the same object must be usable
+  bool ok2 = ok1; std::string err2;
+  if (!ok1) {
+    SimRandom r2(hmix(hstr("fu-init"), 2)); r2.begin_op(3000000);
+    ok2 = sut_call(-1, [&] { g.initialize(r2); }, err2, af);
+    if (!ok2) violation("initialize-refused-valid", "after a first initialise that failed under an I/O fault on " + std::string(L[which]) + " (" + err + "), the same object still refuses a configuration the catalogue knows to be accepted: " + err2);
+    else out.ctr["probe_initialize_succeeds_after_io_fault_at_first_use"]++;
+  }
+  // ... and so must a brand-new one: nothing process-wide may have been poisoned
+  bxdecay0::decay0_generator g2; std::string err3;
+  SimRandom r3(hmix(hstr("fu-init"), 3)); r3.begin_op(3000000);
+  bool ok3 = sut_call(-1, [&] { apply_model(g2, m); g2.initialize(r3); }, err3, af);
+  if (!ok3) violation("initialize-refused-valid", "after an I/O fault on " + std::string(L[which]) + " at the first use in this process, a brand-new generator refuses a configuration the catalogue knows to be accepted: " + err3);
+  tr.add(ok2); tr.add(ok3);
+  if (ok2 && ok3) {
+    for (int i = 0; i < 4 && !out.violated(); i++) {
+      SimRandom a(hmix(hstr("fu-shot"), (u64)i)), b(hmix(hstr("fu-shot"), (u64)i));
+      a.begin_op(3000000); b.begin_op(3000000);
+      bxdecay0::event e1, e2; std::string ea, eb;
+      bool s1 = sut_call(-1, [&] { g.shoot(a, e1); }, ea, af), s2 = sut_call(-1, [&] { g2.shoot(b, e2); }, eb, af);
+      out.ctr["shots_compared_with_fresh_instance"]++;
+      if (s1 != s2 || (s1 && !(EventRec::of(e1) == EventRec::of(e2)))) violation("event-differs-from-fresh-instance", "after the faulted first use, the re-initialised object and a brand-new one yield different events");
+      if (s1) tr.add(EventRec::of(e1).hash());
+    }
+  }
+  out.cover.push_back(std::string("firstuse/") + L[which] + "/k" + std::to_string(kind) + "/" + (m.cat == 1 ? "dbd" : "bkg") + "/" + (ok1 ? "first-ok" : "first-failed"));
+  out.trace = tr.h;
+  return out;
+}
+
+Plan gen_firstuse(u64 seed, u64 idx, const RunCtx &)
+{
+  Plan p; p.suite = "proto-firstuse"; p.seed = seed; p.idx = idx;
+  p.hdr["io_points"] = "1"; // marks the plan as one that must run in a pristine process (no warm-up)
+  Rng r(hmix(hmix(seed, hstr("proto-firstuse")), idx));
+  p.ops.push_back(mk("res_fault", {(i64)r.below(3), r.chance(0.2) ? 0 : r.range(1, 2), r.range(0, 3)}));
+  if (r.chance(0.3) || dbd_cheap().empty()) p.ops.push_back(mk("fu_cfg", {2, 0, 0}, {r.pick(bkg_names())}));
+  else { const DbdEntry & e = r.pick(dbd_cheap()); p.ops.push_back(mk("fu_cfg", {1, e.level, e.mode}, {e.nuc})); }
+  return p;
+}
+
+SuiteRegistrar reg_firstuse({"proto-firstuse", "first use of the lazily loaded catalogues under an I/O fault, in a pristine process (C09)", gen_firstuse, run_firstuse, nullptr,
+                             nullptr});
+
 SuiteRegistrar reg_proto_enum({"proto-enum", "every public-API call sequence of length <= 4 over a 15-call alphabet, against the same protocol model (C09, thorough)",
                                gen_proto_enum, run_proto, simplify_proto, nullptr});
 
